@@ -267,6 +267,9 @@ impl Prop for C14Prop {
         if no_result && defconst_computes_function_value(text) {
             return Some("defconst-computing-a-function-value-recompiles-the-program-without-bound");
         }
+        if v.sig == "timeout" && inline_binding_blowup_shape(text) {
+            return Some("assign-inline-nesting-makes-compile-time-and-output-exponential");
+        }
         let entry = v.case.get("entry_point").and_then(|e| e.as_str()).unwrap_or("");
         let forced = v.case.get("forced_dialect").and_then(|e| e.as_str()).unwrap_or("");
         let symbolic = matches!(entry, "unused-check" | "repl")
@@ -321,6 +324,15 @@ pub fn defconst_computes_function_value(text: &str) -> bool {
     let funs = defs_of(text, &["defun", "defun-inline"]);
     let toks = tokenize(text);
     toks.iter().any(|t| t == "lambda") || consts.iter().any(|(_, body)| body.iter().any(|t| funs.iter().any(|(n, _)| n == t)))
+}
+
+/// an assign-inline together with at least three more binding forms (let, let*, assign*, lambda):
+/// the shape whose inline copies multiply
+pub fn inline_binding_blowup_shape(text: &str) -> bool {
+    let toks = tokenize(text);
+    let inline = toks.iter().filter(|t| t.as_str() == "assign-inline").count();
+    let forms = toks.iter().filter(|t| matches!(t.as_str(), "let" | "let*" | "assign" | "assign-inline" | "assign-lambda" | "lambda")).count();
+    inline >= 1 && forms >= 4
 }
 
 fn defs_of(text: &str, heads: &[&str]) -> Vec<(String, Vec<String>)> {
